@@ -406,7 +406,10 @@ func (w *World) findCallsDeep(root *ssa.Function, want string) []deepCall {
 	for _, fn := range w.withModuleCallees(root, 3) {
 		envs := []map[*ssa.Parameter]string{nil}
 		if fn != root {
+			savedRoot := w.envRoot
+			w.envRoot = root
 			envs = w.callerEnvs(fn, 0)
+			w.envRoot = savedRoot
 		}
 		for _, c := range CallsIn(fn) {
 			match := len(envs) > 0
@@ -436,7 +439,10 @@ func (w *World) findCallsDeep(root *ssa.Function, want string) []deepCall {
 func (w *World) condHoldsDeep(root, fn *ssa.Function, in ssa.Instruction, cond string, want int, depth int) bool {
 	envs := []map[*ssa.Parameter]string{nil}
 	if fn != root {
+		savedRoot := w.envRoot
+		w.envRoot = root
 		envs = w.callerEnvs(fn, 0)
+		w.envRoot = savedRoot
 	}
 	here := len(envs) > 0
 	for _, env := range envs {
@@ -476,7 +482,10 @@ func (w *World) inCallerTerms(root, fn *ssa.Function, f func() bool) bool {
 	if fn == root {
 		return f()
 	}
+	savedRoot := w.envRoot
+	w.envRoot = root
 	envs := w.callerEnvs(fn, 0)
+	w.envRoot = savedRoot
 	if len(envs) == 0 {
 		return false
 	}
